@@ -236,11 +236,34 @@ Definition mrow_ok (r : mrow) : bool :=
 (* ---------- KFrame: what N goroutines wrote to one pooled TLS connection through tlsConn.writePacket ----------
    chunks = the plaintext handed to the connection, one element per conn.Write, in lock order; payloads = the
    memberlist packets given to writePacket; received = packets the reader decoded intact. *)
-Definition is_suffix (p f : list N) : bool := beq (drop (length f - length p) f) p.
+Fixpoint nlist_eqb (a b : list N) : bool :=
+  match a, b with
+  | [], [] => true
+  | x :: r, y :: r' => N.eqb x y && nlist_eqb r r'
+  | _, _ => false
+  end.
+Definition is_suffix (p f : list N) : bool :=
+  (length p <=? length f)%nat && nlist_eqb (drop (length f - length p) f) p.
+(* list-of-bytes form of the harness' filler payload (mkpay) *)
+Fixpoint mkpayN_f (n : nat) (i cur : N) : list N :=
+  match n with
+  | O => []
+  | S n' =>
+      let i' := (i + 1)%N in
+      let c := (cur + 7 + (if (N.land i' 255 =? 0)%N then 3 else 0))%N in
+      cur :: mkpayN_f n' i' (if (256 <=? c)%N then (c - 256)%N else c)
+  end.
+Definition mkpayN (size fill : Z) : list N := mkpayN_f (Z.to_nat size) 0%N (Z.to_N (fill mod 256)).
+(* every parsed frame is the envelope (at most 64 bytes of version / kind / from_addr / field headers) followed by one
+   of the payloads; lengths are computed once, in Z *)
 Definition frames_ok (chunks payloads : list (list N)) (received : nat) : bool :=
   match parse_frames (length payloads) (concat chunks) with
-  | Some l => beq (length l) received && beq (length l) (length payloads) &&
-              forallb (fun f => existsb (fun p => is_suffix p f) payloads) l
+  | Some l =>
+      let lp := map (fun p => (Z.of_nat (length p), p)) payloads in
+      beq (length l) received && beq (length l) (length payloads) &&
+      forallb (fun f => let lf := Z.of_nat (length f) in
+                        existsb (fun '(n, p) => (n <=? lf) && (lf - n <=? 64) &&
+                                                nlist_eqb (drop (Z.to_nat (lf - n)) f) p) lp) l
   | None => false
   end.
 
